@@ -3,19 +3,22 @@
 //! the same random stream reproduces, a different stream or share changes every nonce; k
 //! pre-processed pairs consume k independent draws; no nonce is zero, no commitment the identity.
 //! (That signing refuses nonces whose commitments are not the signer's entry is part of C05.)
+//! `scenario_scripted_sources` is the "constant or repeating source" part of the quantifier: the derivation is
+//! required position by position from a scripted stream (constant byte, repeated block, A,A,B,C, odd periods).
 
 use frost_core as fc;
 use frost_core::{Ciphersuite, Group};
 use serde_json::json;
 
 use crate::common::*;
-use crate::rng::{FixedRng, TestRng};
+use crate::rng::{bounded, scripted_period, FixedRng, ScriptRng, TestRng};
 use crate::{scn, Scenario};
 
 pub fn scenarios() -> Vec<Scenario> {
     vec![
         scn!(scenario_nonce_derivation, 2),
         scn!(scenario_preprocess_batch, 2),
+        scn!(scenario_scripted_sources, 2),
         crate::wrap::scn_commit(1),
     ]
 }
@@ -141,6 +144,78 @@ pub fn scenario_preprocess_batch<C: Suite>(rng: &mut TestRng, _p: &Params, notes
         check(n.commitments() == c, "pre-processed commitments are listed in the order of their nonces", "same order", "different")?;
         for x in [n.hiding().serialize(), n.binding().serialize()] {
             check(seen.insert(x), "all nonces of a batch are pairwise distinct", "distinct", "a repeat")?;
+        }
+    }
+    Ok(())
+}
+
+/// The quantifier of C15 includes constant and repeating sources.  A sequence of commit / preprocess calls is fed
+/// from ONE scripted stream (see `rng::scripted_period`); whatever the stream contains, pair number i of the sequence
+/// is derived from stream bytes 64i..64i+32 (hiding) and 64i+32..64i+64 (binding), every call draws exactly 64 bytes per
+/// pair, and therefore later rounds are not shifted.  (Distinctness of nonces is NOT required here: equal bytes give
+/// equal nonces.)  The signing share is random or an edge value of the scalar range.
+pub fn scenario_scripted_sources<C: Suite>(rng: &mut TestRng, _p: &Params, notes: &mut Notes) -> Verdict {
+    let share = if rng.chance(40) {
+        let (name, s) = pick_boundary::<C>(rng, true);
+        notes.insert("signing_share".into(), json!(name));
+        fc::keys::SigningShare::<C>::new(s)
+    } else {
+        make_signing_share::<C>(&random_nonzero_scalar::<C>(rng))?
+    };
+    let (kind, period) = scripted_period(rng, false);
+    notes.insert("random_source".into(), json!(kind));
+    notes.insert("random_source_period_hex".into(), json!(hex(&period)));
+    // the calls: commit = one pair, preprocess(k) = k pairs
+    let ncalls = rng.range(1, 4);
+    let calls: Vec<u8> = (0..ncalls).map(|_| if rng.chance(60) { 1 } else { [0u8, 1, 2, 3, 5][rng.below(5)] }).collect();
+    let use_preprocess: Vec<bool> = calls.iter().map(|k| *k != 1 || rng.chance(30)).collect();
+    notes.insert(
+        "calls".into(),
+        json!(calls.iter().zip(&use_preprocess).map(|(k, pre)| if *pre { format!("preprocess({k})") } else { "commit".to_string() }).collect::<Vec<_>>()),
+    );
+    let mut src = ScriptRng::new(period);
+    let mut pair_index = 0usize;
+    for (call, (k, pre)) in calls.iter().zip(&use_preprocess).enumerate() {
+        let before = src.pos;
+        let what = if *pre { format!("call {call}: preprocess({k})") } else { format!("call {call}: commit()") };
+        #[allow(clippy::type_complexity)]
+        let r: Result<(Vec<fc::round1::SigningNonces<C>>, Vec<fc::round1::SigningCommitments<C>>), ()> = bounded(|| {
+            if *pre {
+                fc::round1::preprocess::<C, _>(*k, &share, &mut src)
+            } else {
+                let (n, c) = fc::round1::commit::<C, _>(&share, &mut src);
+                (vec![n], vec![c])
+            }
+        });
+        let (nonces, commitments) = match r {
+            Ok(x) => x,
+            Err(()) => {
+                return fail(
+                    &format!("{what} draws exactly 64 bytes per pair from a repeating random source"),
+                    format!("{} bytes", 64 * *k as usize),
+                    format!("more than {} bytes (the call keeps drawing)", src.limit),
+                )
+            }
+        };
+        check(
+            nonces.len() == *k as usize && commitments.len() == *k as usize,
+            &format!("{what} returns one nonce pair and one commitment pair per requested pair"),
+            k.to_string(),
+            format!("{} / {}", nonces.len(), commitments.len()),
+        )?;
+        check(
+            src.pos - before == 64 * *k as usize,
+            &format!("{what} draws 32 bytes for each hiding and 32 further bytes for each binding nonce, whatever the random source returns"),
+            format!("{} bytes", 64 * *k as usize),
+            format!("{} bytes (stream position {} -> {})", src.pos - before, before, src.pos),
+        )?;
+        for (n, c) in nonces.iter().zip(commitments.iter()) {
+            let h = src.stream(64 * pair_index, 32);
+            let b = src.stream(64 * pair_index + 32, 32);
+            nonce_check::<C>(&format!("{what}, pair {pair_index} of the sequence: hiding"), n.hiding(), c.hiding(), &h, &share)?;
+            nonce_check::<C>(&format!("{what}, pair {pair_index} of the sequence: binding"), n.binding(), c.binding(), &b, &share)?;
+            check(n.commitments() == c, "the commitments stored with the nonces are the published ones", "equal", "different")?;
+            pair_index += 1;
         }
     }
     Ok(())
